@@ -336,7 +336,10 @@ def correspondence(ctx):
     # cluster level: chunked entries under losses, reconnects, lagging followers, leader changes - the shared Raft run
     # (scripted scenarios + random schedules, correspondence with the L1 model, "no exception escapes" records)
     from props import raftcommon as R
-    R.account(ctx, R.raft_run(ctx), ('C11',))
+    # in the scenarios built around big entries, a replica that executed something else is a C11 record as well
+    R.account(ctx, R.raft_run(ctx), ('C11',), {'scenario:big_entry_index_reused': ('C01', 'C04'),
+                                               'scenario:big_entry_lost_predecessor': ('C01', 'C04'),
+                                               'scenario:chunk_keepalive_is_not_an_ack': ('C01', 'C04')})
 
 
 # ---- known findings (both fixed): their witnesses must pass now ---------------------------------
